@@ -1,5 +1,5 @@
 (* Re-proved on every run against the tables regenerated from /repo. *)
-From Miller Require Import Base.Bytes C06.Model C06.Proofs C06.Tables gen.Gen_ScanTables gen.Gen_ScanTypes.
+From Miller Require Import Base.Bytes C06.Model C06.Proofs C06.Grammar C06.GrammarProofs C06.GrammarInfer C06.GrammarAccept C06.Tables gen.Gen_ScanTables gen.Gen_ScanTypes.
 Require Import String.
 Open Scope char_scope.
 
@@ -32,3 +32,13 @@ Lemma gen_examples_spec :
                      [("abc", 0); ("123", 0); ("0899", 0); ("0o377", 0); ("0377", 0); ("0xcafe", 0); ("0b1011", 0); ("1.5", 0)]%string%nat
   /\ map snd gen_examples = map (fun t => N.to_nat (scantype_code t)) all_scantypes.
 Proof. split; reflexivity. Qed.
+
+(* the float-path theorems, for the scanner/inferrer instantiated with the regenerated tables *)
+Lemma g_float_path_iff_grammar s :
+  (gscan s = SMaybeFloat /\ parse_float s <> None) <-> (FloatLit s /\ has_point_or_exp s = true).
+Proof. rewrite gscan_spec. apply float_path_iff_grammar. Qed.
+Lemma g_float_literal_inferred s :
+  FloatLit s -> has_point_or_exp s = true ->
+  exists p, float_parts (snd (split_sign s)) = Some p
+  /\ ginfer FDefault s = match float_value (is_neg (fst (split_sign s))) p with Some b => VFloat b | None => VString end.
+Proof. rewrite ginfer_spec. apply float_literal_inferred. Qed.
